@@ -24,8 +24,8 @@ HARNESSES = [
          unwind=2, timeout=600,
          cases=[dict(id="all", tier="quick")]),
     dict(name="new_sparse", file="new_sparse.c", label="proved", defines=CT,
-         loops=["decode", "read_gnu_new_sparse"], fp={"get_filename": "env_get_filename"},
-         instrument_flags=["--replace-calls", "decode:stub_decode"],
+         loops=["read_gnu_new_sparse"], fp={"get_filename": "env_get_filename"},
+         pre_instrument_flags=["--replace-calls", "decode:stub_decode"],
          native=False, timeout=900, weight=5,
          cases=[dict(id="unbounded", tier="quick")]),
     dict(name="decode_safety", file="decode_safety.c", label="proved", defines=CT,
@@ -35,8 +35,24 @@ HARNESSES = [
          timeout=900,
          cases=[dict(id="len4", defines={"LEN": 4, "__NO_CTYPE": None}, unwind=5, tier="quick"),
                 dict(id="len8", defines={"LEN": 8, "__NO_CTYPE": None}, unwind=9, tier="quick"),
-                dict(id="len12", defines={"LEN": 12, "__NO_CTYPE": None}, unwind=13, tier="thorough",
-                     label="bounded(len<=12)")]),
+                dict(id="len10", defines={"LEN": 10, "__NO_CTYPE": None}, unwind=11, tier="thorough",
+                     label="bounded(len<=10)")]),
+    dict(name="parse_int", file="parse_int.c", label="proved", defines=CT,
+         loops=["parse"], timeout=900,
+         cases=[dict(id="max4096", tier="quick")]),
+    dict(name="hex_decode", file="hex_decode.c", label="proved", defines=CT,
+         loops=["hex_decode"], timeout=900,
+         cases=[dict(id="max4096", tier="quick")]),
+    dict(name="base64", file="base64.c", label="proved", defines=CT,
+         loops=["base64_decode"], timeout=900,
+         cases=[dict(id="separate", tier="quick"),
+                dict(id="inplace", defines={"INPLACE": 1, "__NO_CTYPE": None}, tier="quick")]),
+    dict(name="split_line", file="split_line.c", label="bounded(len<=6)",
+         malloc_fail=True, flags=["--memory-leak-check"], timeout=900, weight=4,
+         cases=[dict(id="len%d" % n, defines={"LEN": n}, unwind=n + 3, tier="quick")
+                for n in (1, 2, 3, 4, 6)] +
+               [dict(id="len8", defines={"LEN": 8}, unwind=11, tier="thorough",
+                     label="bounded(len<=8)")]),
     dict(name="read_header", file="read_header.c", label="bounded(header records per call <= 3)",
          defines=CT, unwind=513, malloc_fail=True, timeout=900, weight=7,
          nochecks=["--conversion-check"],
